@@ -194,6 +194,22 @@ Record wf (inp : input) : Prop := {
   wf_actions : Forall (fun br => Forall act_ok (b_members br)) (i_branches inp)
 }.
 
+(* `wf` without the demand for default options: every setting of custom_joiner / lazy_branches /
+   transpose_results is allowed (SpecOpts.v gives all of them a meaning) *)
+Record wf_opts (inp : input) : Prop := {
+  wfo_names_nodup : NoDup (user_names inp);
+  wfo_names_user : Forall user_ident (user_names inp);
+  wfo_first : Forall (fun br => match b_members br with m :: _ => a_deferred m = false | [] => False end)
+                     (i_branches inp);
+  wfo_actions : Forall (fun br => Forall act_ok (b_members br)) (i_branches inp)
+}.
+
+Lemma wf_wf_opts inp : wf inp -> wf_opts inp.
+Proof. intros [_ _ _ H1 H2 H3 H4]. constructor; assumption. Qed.
+
+Lemma wf_opts_wf inp : wf_opts inp -> i_joiner inp = None -> i_transpose inp = None -> i_lazy inp = None -> wf inp.
+Proof. intros [H1 H2 H3 H4] Hj Ht Hl. constructor; assumption. Qed.
+
 Definition pat_name (p : option (operand * string)) : option string :=
   match p with Some (_, x) => Some x | None => None end.
 Definition opt_list {A} (o : option A) : list A := match o with Some x => [x] | None => [] end.
@@ -201,7 +217,8 @@ Definition opt_list {A} (o : option A) : list A := match o with Some x => [x] | 
 Definition step_rel (acts : list action) (t : list node) : Prop :=
   acts <> [] /\ nest acts = Some t /\ nodes_ok t.
 
-Record Rel (cfg : config) (j : jout) (sp : sprog) : Prop := {
+(* the option-independent part: holds for EVERY setting of custom_joiner / lazy_branches / transpose_results *)
+Record Rel_opts (cfg : config) (j : jout) (sp : sprog) : Prop := {
   r_cfg_j : j_cfg j = cfg;
   r_cfg_sp : sp_cfg sp = cfg;
   r_chains : Forall2 (Forall2 step_rel) (j_chains j) (sp_trees sp);
@@ -211,14 +228,19 @@ Record Rel (cfg : config) (j : jout) (sp : sprog) : Prop := {
   r_depths : j_depths j = map (fun c => List.length c) (j_chains j);
   r_max : j_max j = list_max (j_depths j);
   r_handler : sp_handler sp = j_handler j;
-  r_joiner : j_joiner j = None;
-  r_lazy : j_lazy j = is_spawn cfg && negb (is_async cfg);
-  r_transpose : j_transpose j = is_try cfg && negb (is_async cfg);
   r_nonempty : j_chains j <> [];
   r_hk_nontry : is_try cfg = false -> is_hkind HMap (j_handler j) = false /\ is_hkind HAndThen (j_handler j) = false;
   r_hk_try : is_try cfg = true -> is_hkind HThen (j_handler j) = false;
   r_unames_nodup : NoDup (flat_map opt_list (map pat_name (j_pats j)));
   r_unames_user : Forall user_ident (flat_map opt_list (map pat_name (j_pats j)))
+}.
+
+(* .. and the default options (what Spec.v is the semantics of) *)
+Record Rel (cfg : config) (j : jout) (sp : sprog) : Prop := {
+  r_base :> Rel_opts cfg j sp;
+  r_joiner : j_joiner j = None;
+  r_lazy : j_lazy j = is_spawn cfg && negb (is_async cfg);
+  r_transpose : j_transpose j = is_try cfg && negb (is_async cfg)
 }.
 
 Lemma user_names_pats inp :
@@ -242,10 +264,21 @@ Proof.
   repeat split; auto. eapply nest_ok; eauto.
 Qed.
 
-Theorem rel_of_gen cfg inp fcp j sp :
-  wf inp -> jout_new cfg inp fcp = Ok j -> prepare cfg inp = Some sp -> Rel cfg j sp.
+(* what jout_new does with the three options *)
+Lemma jout_new_opts cfg inp fcp j : jout_new cfg inp fcp = Ok j ->
+  j_joiner j = i_joiner inp /\
+  j_lazy j = opt_default (i_lazy inp) (is_spawn cfg && negb (is_async cfg)) /\
+  j_transpose j = opt_default (i_transpose inp) (is_try cfg && negb (is_async cfg)).
 Proof.
-  intros [Hj Ht Hl Hnd Hus Hfirst Hacts] Hg Hp.
+  intros Hg. unfold jout_new in Hg. cbv zeta in Hg.
+  repeat match type of Hg with (if ?c then _ else _) = _ => destruct c; try discriminate Hg end.
+  inversion Hg. repeat split.
+Qed.
+
+Theorem rel_of_gen_opts cfg inp fcp j sp :
+  wf_opts inp -> jout_new cfg inp fcp = Ok j -> prepare cfg inp = Some sp -> Rel_opts cfg j sp.
+Proof.
+  intros [Hnd Hus Hfirst Hacts] Hg Hp.
   unfold jout_new in Hg.
   destruct (negb (is_try cfg) && (is_hkind HMap (i_handler inp) || is_hkind HAndThen (i_handler inp))) eqn:E1; [discriminate|].
   destruct (is_try cfg && is_hkind HThen (i_handler inp)) eqn:E2; [discriminate|].
@@ -271,14 +304,22 @@ Proof.
   - rewrite map_map. apply map_ext. intros br. destruct (b_pat br) as [[toks x]|]; reflexivity.
   - rewrite map_length. reflexivity.
   - rewrite !map_length. reflexivity.
-  - exact Hj.
-  - rewrite Hl. reflexivity.
-  - rewrite Ht. reflexivity.
   - rewrite Eb. discriminate.
   - intros Htry. rewrite Htry in E1. cbn [negb andb] in E1. apply orb_false_elim in E1. exact E1.
   - intros Htry. rewrite Htry in E2. exact E2.
   - rewrite <- user_names_pats. exact Hnd.
   - rewrite <- user_names_pats. exact Hus.
+Qed.
+
+Theorem rel_of_gen cfg inp fcp j sp :
+  wf inp -> jout_new cfg inp fcp = Ok j -> prepare cfg inp = Some sp -> Rel cfg j sp.
+Proof.
+  intros Hwf Hg Hp. destruct (jout_new_opts cfg inp fcp j Hg) as (Hj & Hl & Ht).
+  constructor.
+  - apply (rel_of_gen_opts cfg inp fcp j sp (wf_wf_opts inp Hwf) Hg Hp).
+  - rewrite Hj. apply (wf_joiner _ Hwf).
+  - rewrite Hl, (wf_lazy _ Hwf). reflexivity.
+  - rewrite Ht, (wf_transpose _ Hwf). reflexivity.
 Qed.
 
 (* ------------------------------------------------------------------------------------------ *)
@@ -325,7 +366,7 @@ Section RelFacts.
   Variable cfg : config.
   Variable j : jout.
   Variable sp : sprog.
-  Hypothesis HR : Rel cfg j sp.
+  Hypothesis HR : Rel_opts cfg j sp.
 
   Let n := j_branch_count j.
 
